@@ -339,6 +339,13 @@ def Slot.show (base : Nat) (j : Nat) (sl : Slot) : String :=
      | .dyn x => s!"{x.kind.letter}{x.id}") ++
     (if sl.isRecv then "r" else "") ++ (if sl.st1 = base + j then "" else "!")
 
+/-- The callback record alone (used for the indices reported by `MPI_Testsome`). -/
+def Slot.showCb (sl : Slot) : String :=
+  (match sl.cb with
+   | .zero => "z"
+   | .am tg r => s!"a{tg}:{r}"
+   | .dyn x => s!"{x.kind.letter}{x.id}") ++ (if sl.isRecv then "r" else "")
+
 def showSlots (base : Nat) (l : List Slot) : String :=
   " ".intercalate ((List.range l.length).map (fun j => Slot.show base j (l.getD j {})))
 
@@ -352,6 +359,28 @@ def St.show (s : St) : String :=
   s!"L={s.dyn.last} R={s.dyn.nrecv} " ++ " ".intercalate (s.pools.map Pool.show) ++
   s!" D[{showSlots s.dyn.base s.dyn.slots}] sq={showQ s.dyn.sendq} rq={showQ s.dyn.recvq}" ++
   (if s.bad then " CORRUPT" else "")
+
+/-! ## Acceptor side conditions (checked by the driver on the observed trace) -/
+
+def ascending : List Nat → Bool
+  | [] => true
+  | [_] => true
+  | a :: b :: rest => decide (a < b) && ascending (b :: rest)
+
+/-- What `MPI_Testsome` may report: strictly increasing indices below `last_active_req` whose slot holds a
+    request, and (for a persistent receive) a request that is active. -/
+def St.okTest (s : St) (c : List Nat) : Bool :=
+  ascending c && c.all (fun pos =>
+    match s.slotAt pos with
+    | some sl =>
+      match sl.req with
+      | none => false
+      | some (.am _ r) =>
+        (match s.locate pos with
+         | .win k _ => ((s.pools[k]?).map (fun p => p.act.getD r false)).getD false
+         | _ => false)
+      | some _ => true
+    | none => false)
 
 /-! ## `next_tag` -/
 
